@@ -336,11 +336,10 @@ def failure_key(scn, f, o):
     if conj == "Header" and clauses == ".c12" and "script" in scn and "--no-gc-sections" in scn["opts"]:
         secs = {s_["idx"]: s_ for s_ in o["secs"]}
         offenders = [secs[t[1]] for t in tuples]
-        nsymtab = sum(1 for s_ in o["secs"] if s_["type"] == "SYMTAB")
-        if nsymtab >= 2 and all(s_["type"] in ("SYMTAB", "RELA") and not s_["alloc"] and s_["link"] == 0 for s_ in offenders):
+        if any(s_["type"] == "SYMTAB" for s_ in offenders) and all(s_["type"] in ("SYMTAB", "RELA") and not s_["alloc"] and s_["link"] == 0 for s_ in offenders):
             return ("input-symtab-copied:script+no-gc-sections",
                     "with -T script and --no-gc-sections the input objects' .symtab/.strtab/.rela.* sections are copied "
-                    f"into the output (second SHT_SYMTAB with sh_link=0): {text}")
+                    f"into the output (an extra SHT_SYMTAB with sh_link=0): {text}")
     if "secstart-collides-image" in scn["tags"] and conj in COLLIDE_CONJUNCTS:
         return ("secstart-collides-image:overlap",
                 "--section-start address inside the default image is accepted and the headers / other segments "
@@ -350,14 +349,13 @@ def failure_key(scn, f, o):
 
 def link_population(ctx, d, rng, n, libs):
     scns = [gen_scenario(rng, i, ctx.quick) for i in range(n)]
-    for s in scns:
+
+    def job(s):
         sub = d / s["id"]
         sub.mkdir()
         s["dir"] = sub
         s["args"] = emit(s, sub, libs)
-
-    def job(s):
-        r = run_wild(s["args"] + ["-o", str(s["dir"] / "out")], cwd=s["dir"], timeout=60)
+        r = run_wild(s["args"] + ["-o", str(sub / "out")], cwd=sub, timeout=60)
         return s, r
 
     with ThreadPoolExecutor(max_workers=8) as ex:
@@ -382,13 +380,15 @@ def run(ctx):
     rng = random.Random(ctx.seed)
     model_check(ctx, cov)
     build_wild()
-    n_links = int(os.environ.get("C04_LINKS", 0)) or (240 if ctx.quick else 2400)
+    n_links = int(os.environ.get("C04_LINKS", 0)) or (180 if ctx.quick else 2400)
     declined = {}
     crashed = []
     observed = []
     with scratch("c04") as d:
         libs = {a: helper_lib(d, a) for a in ("x86_64", "aarch64")}
+        t0 = ctx.elapsed()
         results = link_population(ctx, d, rng, n_links, libs)
+        log(f"c04: {n_links} links generated+linked in {ctx.elapsed() - t0:.1f}s")
         obs = []
         by_id = {}
         for scn, r in results:
@@ -396,8 +396,10 @@ def run(ctx):
                 crashed.append({"id": scn["id"], "class": r.klass(), "err": r.err[-300:]})
                 continue
             if r.rc != 0:
-                msg = (r.err.strip().splitlines() or ["?"])[0][:120]
-                declined.setdefault(msg.split("`")[0][:80], []).append(scn["id"])
+                lines = [ln.strip() for ln in r.err.strip().splitlines() if ln.strip()] or ["?"]
+                msg = re.sub(r"/\S+", "<path>", lines[-1])
+                msg = re.sub(r"-?\d+", "N", msg)
+                declined.setdefault(msg[:100], []).append(scn["id"])
                 continue
             out = scn["dir"] / "out"
             try:
@@ -410,7 +412,49 @@ def run(ctx):
         if len(obs) < 0.6 * n_links:
             raise ToolError(f"generator problem: only {len(obs)} of {n_links} links accepted; declined: "
                             + json.dumps({k: len(v) for k, v in declined.items()}))
-        fails, checked, res = wf.run_layout_obs(obs, name="c04.obs", timeout=900 if ctx.quick else 2400)
+        # GNU ld outputs of some of the same x86-64 inputs go through the same predicate (observer /
+        # predicate sanity), and so do byte-patched copies of one wild output (binding demonstration)
+        plain = [s_ for s_ in observed if s_["arch"] == "x86_64" and "script" not in s_
+                 and not any(t.startswith("secstart") for t in s_["tags"])]
+        gl = []
+        for scn in plain[:12]:
+            args = [a for a in scn["args"] if not str(a).startswith("--threads")]
+            r = asm.gnu_ld(args + ["-o", str(scn["dir"] / "out.ld"), "-z", "separate-code"], cwd=scn["dir"])
+            if r.rc == 0:
+                gl.append(wf.observe_for_tla(scn["dir"] / "out.ld", "gnuld-" + scn["id"]))
+        muts, mobs, mut_base = [], [], None
+        cand = [s_ for s_ in plain if s_["kind"] != "relocatable"]
+        if cand:
+            mut_base = cand[0]
+            raw = bytearray((mut_base["dir"] / "out").read_bytes())
+            e = Elf(data=bytes(raw))
+            load = [p for p in e.segments if p["type"] == 1][-1]
+            sec = [s_ for s_ in e.sections if s_["flags"] & 2 and s_["size"] > 0 and s_["type"] != 8][0]
+            muts = [("load.vaddr+8", wf.phdr_field_off(e, load["index"], "vaddr"), lambda v: v + 8, {"LoadCongruent", "InLoad", "FileMap"}),
+                    ("sec.addr+1", wf.shdr_field_off(e, sec["index"], "addr"), lambda v: v + 1, {"SecAlign", "MemOverlap", "FileMap", "InLoad"}),
+                    ("load.flags|=W|X", wf.phdr_field_off(e, load["index"], "type"), lambda v: v | (3 << 32), {"WX", "Perm"})]
+            for label, off, fn, _exp in muts:
+                b = bytearray(raw)
+                wf.patch_u64(b, off, fn)
+                mobs.append(wf.observe_for_tla(None, "mut-" + label, data=bytes(b)))
+        t0 = ctx.elapsed()
+        allfails, checked, res = wf.run_layout_obs(obs + gl + mobs, name="c04.obs", timeout=900 if ctx.quick else 2400)
+        log(f"c04: TLC evaluated WellFormed on {len(obs)}+{len(gl)}+{len(mobs)} observations in {ctx.elapsed() - t0:.1f}s")
+        fails = [f for f in allfails if not f["id"].startswith(("gnuld-", "mut-"))]
+        gfails = [f for f in allfails if f["id"].startswith("gnuld-")]
+        mf = [f for f in allfails if f["id"].startswith("mut-")]
+        bad = [f for f in gfails if f["conjunct"] not in ("Perm", "Relro", "Tls", "LoadOrder")]
+        if bad:
+            raise ToolError(f"GNU ld outputs fail WellFormed conjuncts the predicate must accept: {bad[:4]}")
+        cov["gnu_ld_reference_outputs"] = {"checked": len(gl), "layout_convention_differences": sorted({f["conjunct"] for f in gfails})}
+        demo = []
+        if mut_base is not None:
+            base_fail = {f["conjunct"] for f in fails if f["id"] == mut_base["id"]}
+            for label, _off, _fn, exp in muts:
+                got = {f["conjunct"] for f in mf if f["id"] == "mut-" + label} - base_fail
+                demo.append({"mutation": label, "of": mut_base["id"], "newly_rejected_by": sorted(got)})
+                if not (got & exp):
+                    raise ToolError(f"binding demonstration failed: patched output ({label}) was accepted (got {got})")
         # group failures per (scenario, conjunct)
         per = {}
         for f in fails:
@@ -421,57 +465,16 @@ def run(ctx):
             for f in fl:
                 key, text = failure_key(scn, f, obs_by_id[ident])
                 ctx.verdict.report(key, text, lambda scn=scn, fl=fl: replay_dir(scn, fl, f"{scn['id']}-seed{ctx.seed}"))
-        # samples
         for scn in observed[:3]:
             cov["samples"].append(summarize(scn))
-
-        # 3a. observer vs readelf on a sample
+        # observer vs readelf on a sample
         disc = []
-        for scn in observed[:: max(1, len(observed) // 25)]:
+        for scn in observed[:: max(1, len(observed) // 20)]:
             dd = wf.crosscheck_with_readelf(scn["dir"] / "out")
             if dd:
                 disc.append((scn["id"], dd[:5]))
         if disc:
             raise ToolError(f"observer disagrees with readelf: {disc[:3]}")
-        # 3b. GNU ld outputs of some of the same x86-64 inputs through the same predicate
-        gl = []
-        for scn in [s for s in observed if s["arch"] == "x86_64" and "script" not in s
-                    and not any(t.startswith("secstart") for t in s["tags"])][:12]:
-            args = [a for a in scn["args"] if not str(a).startswith("--threads")]
-            r = asm.gnu_ld(args + ["-o", str(scn["dir"] / "out.ld"), "-z", "separate-code"], cwd=scn["dir"])
-            if r.rc == 0:
-                gl.append(wf.observe_for_tla(scn["dir"] / "out.ld", "gnuld-" + scn["id"]))
-        gfails = []
-        if gl:
-            gfails, _c, _r = wf.run_layout_obs(gl, name="c04.gnuld")
-            bad = [f for f in gfails if f["conjunct"] not in ("Perm", "Relro", "Tls", "LoadOrder")]
-            if bad:
-                raise ToolError(f"GNU ld outputs fail WellFormed conjuncts the predicate must accept: {bad[:4]}")
-        cov["gnu_ld_reference_outputs"] = {"checked": len(gl), "layout_convention_differences": sorted({f["conjunct"] for f in gfails})}
-        # 3c. binding demonstration: patch one field of an accepted output -> must be rejected
-        clean = [s for s in observed if s["id"] not in {k for k, v in per.items() if any(f["conjunct"] != "Null0" for f in v)}
-                 and s["kind"] != "relocatable"]
-        demo = []
-        if clean:
-            scn = clean[0]
-            raw = bytearray((scn["dir"] / "out").read_bytes())
-            e = Elf(data=bytes(raw))
-            load = [p for p in e.segments if p["type"] == 1][-1]
-            sec = [s for s in e.sections if s["flags"] & 2 and s["size"] > 0 and s["type"] != 8][0]
-            muts = [("load.vaddr+8", wf.phdr_field_off(e, load["index"], "vaddr"), lambda v: v + 8, {"LoadCongruent", "InLoad", "FileMap"}),
-                    ("sec.addr+1", wf.shdr_field_off(e, sec["index"], "addr"), lambda v: v + 1, {"SecAlign", "MemOverlap", "FileMap", "InLoad"}),
-                    ("load.flags|=W|X", wf.phdr_field_off(e, load["index"], "type"), lambda v: v | (3 << 32), {"WX", "Perm"})]
-            mobs = []
-            for label, off, fn, _exp in muts:
-                b = bytearray(raw)
-                wf.patch_u64(b, off, fn)
-                mobs.append(wf.observe_for_tla(None, "mut-" + label, data=bytes(b)))
-            mf, _c, _r = wf.run_layout_obs(mobs, name="c04.demo")
-            for label, _off, _fn, exp in muts:
-                got = {f["conjunct"] for f in mf if f["id"] == "mut-" + label}
-                demo.append({"mutation": label, "rejected_by": sorted(got)})
-                if not (got & exp):
-                    raise ToolError(f"binding demonstration failed: patched output ({label}) was accepted (got {got})")
         cov["binding_demo"] = demo
     kinds = {}
     for s in observed:
